@@ -30,14 +30,19 @@ class Scripted:
         return v
 
 
+# two concretisations of the ranks: well separated values, and nearly equal values around a large offset
+# (differences far below the relative tolerance of np.isclose: a decision must still follow the exact order)
+BASE, GAP = 5.0, 0.5
+
+
 def fit(rank, maximize):
-    g = 5.0 + 0.5 * rank
+    g = BASE + GAP * rank
     return -g if maximize else g
 
 
 def rank_of(f, maximize):
     g = -f if maximize else f
-    return int(round((g - 5.0) / 0.5))
+    return int(round((g - BASE) / GAP))
 
 
 def pop_of(ranks, prob, maximize, tag):
@@ -46,6 +51,20 @@ def pop_of(ranks, prob, maximize, tag):
 
 
 def main(table_path, out_path):
+    global BASE, GAP
+    parts = []
+    for BASE, GAP in ((5.0, 0.5), (1024.0, 2.0 ** -14)):
+        parts.append(run_table(table_path, f"values={BASE}+{GAP}*rank"))
+    out = parts[0]
+    for p in parts[1:]:
+        for k in ("evaluations", "nontrivial", "skipped"):
+            out[k] += p[k]
+        out["violations"] += p["violations"]
+    out["violations"] = out["violations"][:500]
+    json.dump(out, open(out_path, "w"))
+
+
+def run_table(table_path, tag):
     viol, n_eval, distinct, samples, skipped = [], 0, 0, [], 0
     nontrivial = 0
 
@@ -63,7 +82,7 @@ def main(table_path, out_path):
         for maximize in (False, True):
             obj = Scripted()
             prob = FunctionProblem(obj, bounds=BOUNDS, maximize=maximize)
-            sig = f"op={op} maximize={maximize} " + " ".join(f"{k}={v}" for k, v in c.items() if k in ("parents", "offspring", "k", "a", "b"))
+            sig = f"op={op} maximize={maximize} {tag} " + " ".join(f"{k}={v}" for k, v in c.items() if k in ("parents", "offspring", "k", "a", "b"))
             n_eval += 1
             try:
                 if op == "order":
@@ -147,8 +166,8 @@ def main(table_path, out_path):
                     bad("C13_SelectionDirectionSymmetry", f"op=replace engine={e} parents={c['parents']} offspring={c['offspring']}", {})
         if len(samples) < 4 and op in ("select", "replace") and len(c["parents"]) == 4 and li % 977 == 0:
             samples.append({k: v for k, v in c.items()})
-    json.dump({"evaluations": n_eval, "distinct": distinct, "nontrivial": nontrivial, "skipped": skipped,
-               "violations": viol, "samples": samples or [c]}, open(out_path, "w"))
+    return {"evaluations": n_eval, "distinct": distinct, "nontrivial": nontrivial, "skipped": skipped,
+            "violations": viol, "samples": samples or [c]}
 
 
 if __name__ == "__main__":
